@@ -662,15 +662,23 @@ func abandoned(id string, seed uint64) runner.Result {
 	sid := uint64(1)
 	want := map[uint64]map[string]string{}
 	var desc []string
-	ncalls := 2 + r.Intn(4)
+	ncalls := 2 + r.Intn(5)
+	var lastAbandoned []byte
+	var lastAbandonedMD map[string]string
 	for i := 0; i < ncalls; i++ {
 		md := genMap(r)
 		for len(md) == 0 {
 			md = genMap(r)
 		}
 		enc, _ := drpcmetadata.Encode(nil, md)
-		switch r.Intn(3) {
+		kindOfCall := r.Intn(3)
+		if lastAbandoned != nil && r.Intn(2) == 0 {
+			// the retry of a call that was given up: the very same metadata, byte for byte, this time with its invoke
+			md, enc, kindOfCall = lastAbandonedMD, lastAbandoned, 1
+		}
+		switch kindOfCall {
 		case 0: // abandoned: metadata only, then the next call uses a higher stream id
+			lastAbandoned, lastAbandonedMD = enc, md
 			b = refwire.Encode(b, refwire.Frame{Stream: sid, Message: 1, Kind: 7, Done: true, Data: enc})
 			if r.Intn(2) == 0 {
 				// what a client in soft-cancel mode emits when the call is cancelled right there: its cancel packet (control bit set)
